@@ -134,7 +134,10 @@ def report(prop, tier, seed, records, overlay_info, src_hash, wall):
         "wall_s": round(wall, 2),
         "violations": len(violations),
     }
-    write_json(os.path.join(VERIF, "evidence", prop + ".json"), ev)
+    # evidence/ only ever holds runs against /repo itself; runs against another tree
+    # (VERIF_REPO=<scratch worktree>, used when trying seeded changes) go elsewhere
+    evdir = "evidence" if os.path.realpath(REPO) == "/repo" else os.path.join(".cache", "evidence-other-tree")
+    write_json(os.path.join(VERIF, evdir, prop + ".json"), ev)
     for rec, k in knowns:
         print("KNOWN-FINDING: property=%s %s" % (prop, k.get("what", rec["name"])))
     for rec in violations:
